@@ -48,6 +48,11 @@ type atomCase struct {
 	Chunks  []int  `json:"chunks"` // sizes, sum == NewSize, each >= 1 (empty for NewSize 0)
 	// Others are further objects copied together with Path in the storage.Copy stage.
 	Others []faultx.FileSpec `json:"others,omitempty"`
+	// Via is the write-side wrapper the put goes through: direct | map | maprw | nopcloser |
+	// limit | map+limit | limit+map (limits are never reached here). Depth is the number of
+	// path components of the mapped prefix (1-2).
+	Via   string `json:"via"`
+	Depth int    `json:"depth"`
 	// set on failure / for replay
 	Stage string `json:"stage,omitempty"`
 }
@@ -61,6 +66,67 @@ func (c atomCase) oldData() []byte {
 }
 func (c atomCase) newData() []byte { return faultx.Content(c.NewSeed+1, c.NewSize) }
 
+// prefix is the mapped prefix of the wrapper ("" if the wrapper does not map).
+func (c atomCase) prefix() string {
+	if !strings.Contains(c.Via, "map") {
+		return ""
+	}
+	if c.Depth >= 2 {
+		return "cache/v3"
+	}
+	return "cache"
+}
+
+// disk is the path, relative to the directory of the disk bucket, where path p of the
+// (wrapped) bucket lives.
+func (c atomCase) disk(p string) string {
+	if pre := c.prefix(); pre != "" {
+		return pre + "/" + p
+	}
+	return p
+}
+
+// key names the wrapper in the root-cause key.
+func (c atomCase) key(base string) string {
+	if c.Via == "" || c.Via == "direct" {
+		return base
+	}
+	return base + ":via-" + c.Via
+}
+
+func (c atomCase) viaMsg(msg string) string {
+	if c.Via == "" || c.Via == "direct" {
+		return msg
+	}
+	return fmt.Sprintf("put through the %s wrapper (prefix %q) over the disk bucket: %s", c.Via, c.prefix(), msg)
+}
+
+const neverReached = 1 << 30
+
+// wrapVia puts the case's write-side wrapper around the disk bucket.
+func wrapVia(b storage.ReadWriteBucket, c atomCase) (storage.WriteBucket, error) {
+	m := storage.MapOnPrefix(c.prefix())
+	switch c.Via {
+	case "", "direct":
+		return b, nil
+	case "map":
+		return storage.MapWriteBucket(b, m), nil
+	case "maprw":
+		return storage.MapReadWriteBucket(b, m), nil
+	case "nopcloser":
+		return storage.NopReadWriteBucketCloser(b), nil
+	case "limit":
+		return storage.LimitWriteBucket(b, neverReached), nil
+	case "map+limit":
+		return storage.MapWriteBucket(storage.LimitWriteBucket(b, neverReached), m), nil
+	case "limit+map":
+		return storage.LimitWriteBucket(storage.MapWriteBucket(b, m), neverReached), nil
+	}
+	return nil, fmt.Errorf("unknown wrapper %q", c.Via)
+}
+
+var vias = []string{"direct", "direct", "map", "map", "map", "maprw", "maprw", "nopcloser", "limit", "map+limit", "limit+map"}
+
 func genAtomCase(t *rapid.T) atomCase {
 	c := atomCase{
 		Path:    rapid.SampledFrom([]string{"f.txt", "d/f.proto", "d/e/buf.lock", "a/b/c/module.yaml"}).Draw(t, "path"),
@@ -70,6 +136,8 @@ func genAtomCase(t *rapid.T) atomCase {
 		NewSize: faultx.GenSize(t, "newsize"),
 		NewSeed: uint32(rapid.IntRange(0, 1<<20).Draw(t, "newseed")),
 	}
+	c.Via = rapid.SampledFrom(vias).Draw(t, "via")
+	c.Depth = rapid.IntRange(1, 2).Draw(t, "depth")
 	rest := c.NewSize
 	for rest > 0 {
 		n := rest
@@ -102,7 +170,7 @@ func newAtomEnv(c atomCase) (*atomEnv, error) {
 	}
 	e := &atomEnv{c: c, dir: dir, old: c.oldData(), new: c.newData()}
 	if c.HasOld {
-		full := filepath.Join(dir, filepath.FromSlash(c.Path))
+		full := filepath.Join(dir, filepath.FromSlash(c.disk(c.Path)))
 		if err := os.MkdirAll(filepath.Dir(full), 0o755); err != nil {
 			return nil, err
 		}
@@ -115,8 +183,13 @@ func newAtomEnv(c atomCase) (*atomEnv, error) {
 
 func (e *atomEnv) close() { _ = os.RemoveAll(e.dir) }
 
-func (e *atomEnv) bucket() (storage.ReadWriteBucket, error) {
-	return storageos.NewProvider().NewReadWriteBucket(e.dir)
+// bucket is the bucket the writer uses: the disk bucket behind the case's wrapper.
+func (e *atomEnv) bucket() (storage.WriteBucket, error) {
+	b, err := storageos.NewProvider().NewReadWriteBucket(e.dir)
+	if err != nil {
+		return nil, err
+	}
+	return wrapVia(b, e.c)
 }
 
 // read is the reader: a fresh bucket over the same directory.
@@ -150,7 +223,7 @@ func describeBytes(b []byte, exists bool) string {
 
 // observe checks what a reader sees. Returns a violation message or "".
 func (e *atomEnv) observe(want int) (string, error) {
-	got, exists, err := readObject(e.dir, e.c.Path)
+	got, exists, err := readObject(e.dir, e.c.disk(e.c.Path))
 	if err != nil {
 		return "", err
 	}
@@ -255,11 +328,11 @@ func runStage(c atomCase, stage string) (*atomViolation, error) {
 	case "rename-fails":
 		// the final path is a directory that holds an object: the rename must fail
 		if c.HasOld {
-			if err := os.Remove(filepath.Join(e.dir, filepath.FromSlash(c.Path))); err != nil {
+			if err := os.Remove(filepath.Join(e.dir, filepath.FromSlash(c.disk(c.Path)))); err != nil {
 				return nil, err
 			}
 		}
-		inner := filepath.Join(e.dir, filepath.FromSlash(c.Path), "inner.txt")
+		inner := filepath.Join(e.dir, filepath.FromSlash(c.disk(c.Path)), "inner.txt")
 		if err := os.MkdirAll(filepath.Dir(inner), 0o755); err != nil {
 			return nil, err
 		}
@@ -318,7 +391,7 @@ func runStage(c atomCase, stage string) (*atomViolation, error) {
 		}
 		fits := 0
 		for _, p := range faultx.SortedKeys(src) {
-			got, exists, err := readObject(e.dir, p)
+			got, exists, err := readObject(e.dir, c.disk(p))
 			if err != nil {
 				return nil, err
 			}
@@ -388,7 +461,7 @@ func runStage(c atomCase, stage string) (*atomViolation, error) {
 		hookSeen[st]++
 		switch st {
 		case "closed-temp":
-			if msg, err := e.observe(wantOld); err == nil && msg != "" {
+			if msg, err := e.observe(wantOldOrNew); err == nil && msg != "" {
 				hookSeen["bad:"+msg]++
 			}
 			if kind == "closed-temp" {
@@ -424,7 +497,9 @@ func runStage(c atomCase, stage string) (*atomViolation, error) {
 			_ = w.Close()
 		}
 	}()
-	if v, err := obs(wantOld, "after Put (temporary file created)"); v != nil || err != nil {
+	// before Close returns the statement allows the old or the complete new content (an empty new
+	// object is complete as soon as it exists)
+	if v, err := obs(wantOldOrNew, "after Put (temporary file created)"); v != nil || err != nil {
 		return v, err
 	}
 	if kind == "temp-created" {
@@ -463,7 +538,7 @@ func runStage(c atomCase, stage string) (*atomViolation, error) {
 			return nil, fmt.Errorf("write failed: %w", err)
 		}
 		off += n
-		if v, err := obs(wantOld, fmt.Sprintf("after write %d", i)); v != nil || err != nil {
+		if v, err := obs(wantOldOrNew, fmt.Sprintf("after write %d", i)); v != nil || err != nil {
 			return v, err
 		}
 		if kind == "crash-after-write" && i == a1 {
@@ -475,23 +550,19 @@ func runStage(c atomCase, stage string) (*atomViolation, error) {
 	if v, err := hookBad(); v != nil || err != nil {
 		return v, err
 	}
-	switch kind {
-	case "closed-temp":
-		if !errors.Is(cerr, errKill) {
-			return nil, fmt.Errorf("hook at closed-temp did not fire: Close returned %v (hook stages %v)", cerr, hookSeen)
-		}
+	// Whether Close goes through the temp-file + rename stages is a mechanism: if a hook stage is
+	// not reached the run is simply a put that completed, and only the outcome is judged.
+	if hookSeen["closed-temp"] == 0 || hookSeen["renamed"] == 0 {
+		evid.R().Class("atomic-hook-stage-not-reached")
+	}
+	switch {
+	case kind == "closed-temp" && errors.Is(cerr, errKill):
 		return obs(wantOld, "after a kill between temp-file close and rename")
-	case "renamed":
-		if !errors.Is(cerr, errKill) {
-			return nil, fmt.Errorf("hook at renamed did not fire: Close returned %v (hook stages %v)", cerr, hookSeen)
-		}
+	case kind == "renamed" && errors.Is(cerr, errKill):
 		return obs(wantNew, "after a kill right after the rename")
-	default: // clean
+	default: // clean, or the kill stage was never reached
 		if cerr != nil {
-			return nil, fmt.Errorf("clean atomic put failed: %w", cerr)
-		}
-		if hookSeen["closed-temp"] != 1 || hookSeen["renamed"] != 1 {
-			return nil, fmt.Errorf("atomic close hook stages not reached: %v", hookSeen)
+			return nil, fmt.Errorf("atomic put without an injected failure failed: %w", cerr)
 		}
 		return obs(wantNew, "after the successful put")
 	}
@@ -518,11 +589,12 @@ func TestAtomicPut(t *testing.T) {
 			if v != nil {
 				cc := c
 				cc.Stage = stage
-				if !r.Fail(t, v.key, v.msg, cc) {
+				if !r.Fail(t, cc.key(v.key), cc.viaMsg(v.msg), cc) {
 					return
 				}
 			}
 		}
+		r.Class("atomic-via:" + c.Via)
 		if c.HasOld {
 			r.Class("atomic-case:overwrite")
 		} else {
@@ -564,7 +636,7 @@ func replayAtomic(t *testing.T) {
 			}
 			r.Eval()
 			if v != nil {
-				r.Fail(t, v.key, v.msg, c)
+				r.Fail(t, c.key(v.key), c.viaMsg(v.msg), c)
 			}
 			continue
 		}
@@ -575,7 +647,7 @@ func replayAtomic(t *testing.T) {
 			}
 			r.Eval()
 			if v != nil {
-				r.Fail(t, v.key, v.msg, c)
+				r.Fail(t, c.key(v.key), c.viaMsg(v.msg), c)
 			}
 			continue
 		}
@@ -585,7 +657,7 @@ func replayAtomic(t *testing.T) {
 		}
 		r.Eval()
 		if v != nil {
-			r.Fail(t, v.key, v.msg, c)
+			r.Fail(t, c.key(v.key), c.viaMsg(v.msg), c)
 		}
 	}
 }
@@ -625,7 +697,7 @@ func limitBucketScenario(c atomCase, limit int) (*atomViolation, error) {
 		off += n
 	}
 	cerr := w.Close()
-	got, exists, err := readObject(e.dir, c.Path)
+	got, exists, err := readObject(e.dir, c.disk(c.Path))
 	if err != nil {
 		return nil, err
 	}
@@ -679,7 +751,7 @@ func TestLimitBucketAtomicPut(t *testing.T) {
 	func() {
 		defer r.Begin(t)()
 		// "OLD-CONTENT" replaced by "NEW"+"-COMPLETE-CONTENT" with a 5 byte limit
-		c := atomCase{Path: "f.txt", HasOld: true, OldSize: 11, OldSeed: 1, NewSize: 20, NewSeed: 2, Chunks: []int{3, 17}}
+		c := atomCase{Path: "f.txt", HasOld: true, OldSize: 11, OldSeed: 1, NewSize: 20, NewSeed: 2, Chunks: []int{3, 17}, Via: "direct"}
 		v, err := limitBucketScenario(c, 5)
 		if err != nil {
 			t.Fatalf("harness: %v", err)
@@ -688,12 +760,13 @@ func TestLimitBucketAtomicPut(t *testing.T) {
 		r.Class("atomic:limit-bucket (directed)")
 		if v != nil {
 			c.Stage = v.stage
-			r.Fail(t, v.key, v.msg, c)
+			r.Fail(t, c.key(v.key), c.viaMsg(v.msg), c)
 		}
 	}()
 	r.Check(t, r.Scale(40, 600), 5, func(t *rapid.T) {
 		c := genAtomCase(t)
 		c.Others = nil
+		c.Via = "direct" // the known finding is exactly LimitWriteBucket directly over the disk bucket
 		if c.NewSize == 0 {
 			c.NewSize, c.Chunks = 1, []int{1}
 		}
@@ -706,7 +779,7 @@ func TestLimitBucketAtomicPut(t *testing.T) {
 		r.Class("atomic:limit-bucket (generated)")
 		if v != nil {
 			c.Stage = v.stage
-			if r.Fail(t, v.key, v.msg, c) {
+			if r.Fail(t, c.key(v.key), c.viaMsg(v.msg), c) {
 				return
 			}
 		}
@@ -730,12 +803,17 @@ func childMain() int {
 		return 9
 	}
 	ctx := context.Background()
-	b, err := storageos.NewProvider().NewReadWriteBucket(spec.Dir)
+	osb, err := storageos.NewProvider().NewReadWriteBucket(spec.Dir)
 	if err != nil {
 		fmt.Println("child:", err)
 		return 9
 	}
 	c := spec.Case
+	b, err := wrapVia(osb, c)
+	if err != nil {
+		fmt.Println("child:", err)
+		return 9
+	}
 	newData := c.newData()
 	if spec.Stage == "loop" {
 		// alternate two complete contents until killed
@@ -854,6 +932,15 @@ func runChildStage(c atomCase, stage string) (*atomViolation, error) {
 		want = wantNew
 	case strings.HasPrefix(stage, "efbig:"):
 		wantCode = 4
+	case stage == "temp-created" || strings.HasPrefix(stage, "after-write:"):
+		// killed before Close: the statement allows the old or the complete new content
+		want = wantOldOrNew
+	}
+	if (stage == "closed-temp" || stage == "renamed") && code == 0 {
+		// the put never went through that stage of the temp-file + rename mechanism and
+		// completed: judge the outcome only
+		evid.R().Class("atomic-hook-stage-not-reached")
+		want, wantCode = wantNew, 0
 	}
 	if code == 5 {
 		return &atomViolation{key: "error-swallowed:AtomicClose", msg: fmt.Sprintf("stage %s: child: Close returned nil after write(2) failed with EFBIG", full), stage: full}, nil
@@ -902,7 +989,7 @@ func TestAtomicPutRealProcess(t *testing.T) {
 			if v != nil {
 				cc := c
 				cc.Stage = v.stage
-				if !r.Fail(t, v.key, v.msg, cc) {
+				if !r.Fail(t, cc.key(v.key), cc.viaMsg(v.msg), cc) {
 					return
 				}
 			}
@@ -950,7 +1037,7 @@ func TestAtomicPutSigkill(t *testing.T) {
 		_ = cmd.Wait()
 		r.Eval()
 		r.Class("child:sigkill (exploration)")
-		got, exists, err := readObject(e.dir, c.Path)
+		got, exists, err := readObject(e.dir, c.disk(c.Path))
 		if err != nil {
 			t.Fatalf("harness: %v", err)
 		}
@@ -959,7 +1046,7 @@ func TestAtomicPutSigkill(t *testing.T) {
 		if !ok {
 			cc := c
 			cc.Stage = "child:loop"
-			r.Fail(t, "atomic-put-partial-visible", fmt.Sprintf("after SIGKILL of a process alternating two atomic puts the reader sees %s at %q, which is neither the old content nor one of the two complete contents (%d / %d bytes)", describeBytes(got, exists), c.Path, len(e.new), len(alt)), cc)
+			r.Fail(t, cc.key("atomic-put-partial-visible"), fmt.Sprintf("after SIGKILL of a process alternating two atomic puts the reader sees %s at %q, which is neither the old content nor one of the two complete contents (%d / %d bytes)", describeBytes(got, exists), c.Path, len(e.new), len(alt)), cc)
 		}
 	})
 }
